@@ -220,7 +220,8 @@ def check_trims(ctx):
         t1.knotvector = [0, 0, 1.0 / 3, 2.0 / 3, 1, 1]
         t1.opt = ["reversed", 1]
         t2 = freeform.Freeform()
-        t2.evaluate(points=[[0.1, 0.1], [0.2, 0.1], [0.2, 0.2], [0.1, 0.1]])
+        # (a sampled polyline may repeat a point: the doubled vertex and the doubled start travel with the file)
+        t2.evaluate(points=[[0.1, 0.1], [0.1, 0.1], [0.2, 0.1], [0.2, 0.2], [0.2, 0.2], [0.1, 0.1]])
         t3 = multi.CurveContainer()
         a = BSpline.Curve(); a.degree = 1; a.ctrlpts = [[0.6, 0.6], [0.9, 0.6]]; a.knotvector = [0, 0, 1, 1]
         b = BSpline.Curve(); b.degree = 1; b.ctrlpts = [[0.9, 0.6], [0.6, 0.6]]; b.knotvector = [0, 0, 1, 1]
